@@ -30,6 +30,7 @@ COUNTERS = {"nontrivial": 0, "paths": 0, "missing_reported": 0, "retries": 0}
 SAMPLES: list = []
 LAST_REASON = ""
 NEWVAL = b"N" * 34
+PREKEY = b"\xfe\xdc"       # cfg["pre"]: a first, successful-unless-the-root-is-missing write inside the same batch (its route is the root only)
 OPS = ["get", "exists", "set", "delete", "traverse", "traverse_from"]
 
 
@@ -84,9 +85,13 @@ def configure(cfg):
     EXPECT.clear()
     for k in QKEYS:
         m2 = dict(MODEL)
+        if cfg.get("pre"):
+            m2[PREKEY] = NEWVAL
         m2[k] = NEWVAL
         EXPECT[("set", k)] = mpt.root_of(m2)
         m3 = dict(MODEL)
+        if cfg.get("pre"):
+            m3[PREKEY] = NEWVAL
         m3.pop(k, None)
         EXPECT[("delete", k)] = mpt.root_of(m3)
     for tpth in TPATHS:
@@ -144,7 +149,10 @@ def _missing_body(miss, op, is_path, ki):
     root, dbc, rc = STATE
     db = stubs.HidingDict(dbc, ORDER, miss)
     from collections import defaultdict
-    t = HexaryTrie(db, root, prune=True, ref_count=defaultdict(int, rc)) if prune else HexaryTrie(db, root)
+    if prune and CFG.get("fresh"):
+        t = HexaryTrie(db, root, prune=True)          # a pruning trie freshly opened on an existing database: empty count table
+    else:
+        t = HexaryTrie(db, root, prune=True, ref_count=defaultdict(int, rc)) if prune else HexaryTrie(db, root)
     target = TPATHS[ki] if is_path else QKEYS[ki]
     on, allowed = ALLOWED[("path" if is_path else "key", target)]
     if opname in ("get", "exists", "set", "traverse", "traverse_from"):
@@ -173,6 +181,9 @@ def _missing_body(miss, op, is_path, ki):
             return (b if batch else t).get(target)
         if opname == "exists":
             return (b if batch else t).exists(target)
+        if opname in ("set", "delete") and batch and CFG.get("pre"):
+            b.set(PREKEY, NEWVAL)
+        holder["root"] = (b if batch else t).root_hash       # the root of the trie object the failing call is made on
         if opname == "set":
             (b if batch else t).set(target, NEWVAL)
             return None
@@ -187,7 +198,9 @@ def _missing_body(miss, op, is_path, ki):
         return o
 
     asked = []
+    holder = {"root": root}
     for attempt in range(len(ORDER) + 2):
+        holder["root"] = root
         snap = _snapshot(t, db)
         try:
             if batch:
@@ -204,7 +217,7 @@ def _missing_body(miss, op, is_path, ki):
                 return _fail(f"MissingTrieNode names {h.hex()[:12]} which is present in the database")
             if h not in allowed:
                 return _fail(f"MissingTrieNode names {h.hex()[:12]} which does not lie on the path of the requested key {target.hex()}")
-            if bytes(e.root_hash) != root or bytes(e.requested_key) != target:
+            if bytes(e.root_hash) != holder["root"] or (bytes(e.requested_key) != target and not (CFG.get("pre") and bytes(e.requested_key) == PREKEY)):
                 return _fail("MissingTrieNode carries a wrong root hash or requested key")
             if opname in ("get", "exists") and (e.prefix is None or tuple(e.prefix) != on[h]):
                 return _fail(f"MissingTrieNode.prefix is {e.prefix}, the missing node sits at {on[h]}")
